@@ -254,9 +254,12 @@ func (h *cbHandler) onGraphEndWithStreamOutput(ctx context.Context,
 }
 
 func (h *cbHandler) onGraphStart(ctx context.Context,
-	_ *callbacks.RunInfo, _ callbacks.CallbackInput) context.Context {
+	info *callbacks.RunInfo, _ callbacks.CallbackInput) context.Context {
 
 	d := h.futureDepth(ctx)
+	if d == 0 && enclosingChain(info) {
+		return ctx
+	}
 	ctx = context.WithValue(ctx, futureDepthKey{h}, d+1)
 	if d != 0 {
 		return ctx // a graph run inside the agent's run
@@ -268,11 +271,14 @@ func (h *cbHandler) onGraphStart(ctx context.Context,
 	return ctx
 }
 
-func (h *cbHandler) onGraphStartWithStreamInput(ctx context.Context, _ *callbacks.RunInfo,
+func (h *cbHandler) onGraphStartWithStreamInput(ctx context.Context, info *callbacks.RunInfo,
 	in *schema.StreamReader[callbacks.CallbackInput]) context.Context {
 
 	in.Close()
 	d := h.futureDepth(ctx)
+	if d == 0 && enclosingChain(info) {
+		return ctx
+	}
 	ctx = context.WithValue(ctx, futureDepthKey{h}, d+1)
 	if d != 0 {
 		return ctx // a graph run inside the agent's run
@@ -282,6 +288,14 @@ func (h *cbHandler) onGraphStartWithStreamInput(ctx context.Context, _ *callback
 	close(h.started)
 
 	return ctx
+}
+
+// enclosingChain: the agent's own runnable is a Graph. A Chain that starts before any graph has been counted
+// is not the agent: it is a chain the agent's exported graph has been appended to (ExportGraph), run with the
+// future's callbacks. It is not counted, the agent's graph below it opens the future. (A Chain met at a
+// depth > 0 runs inside the agent's model or tool and is counted like a graph.)
+func enclosingChain(info *callbacks.RunInfo) bool {
+	return info != nil && info.Component == compose.ComponentOfChain
 }
 
 func (h *cbHandler) sendMessage(msg *schema.Message) {
